@@ -1,15 +1,20 @@
-"""C19 — translator of generator FUNCTION BODIES: reads `modulo_counter`, `line`, `fadein`, `fadeout`, `attack`, `adsr`
-from the source text of audiolazy/lazy_synth.py of the repo under test with `ast` (nothing is imported from the repo) and
+"""C19 — translator of generator FUNCTION BODIES: reads `modulo_counter`, `line`, `fadein`, `fadeout`, `attack`, `adsr`,
+`ones`, `zeros`, `impulse` from the source text of audiolazy/lazy_synth.py of the repo under test with `ast` (nothing is imported from the repo) and
 writes them as Lean definitions over the number operations `NumOps` in the vocabulary of `lean/ALV/Model/C19Src.lean`
 (`forG`, `whileG`, `rangeG`, `takeRun`, `runPre`, `Iter.pre`, `post`, `modChain`, `nextOr`, `finiteG`) into
 `lean/ALV/Gen/C19Src.lean`.  `Props/C19.lean` proves `src_<f>_is_model`: each regenerated definition equals the code
-shaped model (`mcNow`, `lineG`, `adsrG`, `attackNow`) the other theorems of the slice are about.
+shaped model (`mcNow`, `lineG`, `adsrG`, `attackNow`, `constG`, `impulseG`) the other theorems of the slice are about.
 
 The Python subset understood (anything else in a chosen function raises TranslationError = broken obligation):
   * parameters with constant defaults; the decorator `tostream`; a docstring
   * `x = E`, `x += E` with E built from names, the float literals 0. / 1. / .5, int literals, `+ - * /`, unary minus,
     `A if C else B`, `int(E)`, a left-nested chain `E % m % m ...` (only at the top of an assigned / yielded expression),
-    `abs(E) < float("inf")`, `E == 0`, `E != 0`, comparisons of ints, a bool parameter
+    `abs(E) < float("inf")`, `E == 0`, `E != 0`, comparisons of ints, a bool parameter, `isinf(E)`, order comparisons of
+    numbers (`a >= b` is `o.le b a`; the int literal 0 is read as the number zero), `C1 and C2` of such
+  * an optional number parameter (default None): `if x is None or C: A [else: B]` -> `match x with | none => A | some x =>
+    if C then A else B`; `yield E` at function level (a one sample segment); what follows an endless
+    `while True: yield E` in a sequence is never run and is not translated (the fall-through of `ones` / `zeros`);
+    parameters that are items of any type (`one`, `zero` of impulse: only yielded)
   * `if isinstance(x, Iterable): .. else: ..`, `if C: .. else: ..`, `it = iter(x)`, `it = None`,
     `try: x = next(it) / except StopIteration: return`, `if it is None: .. else: ..`
   * loops `for v[, v..] in xzip(l, ..) / l / xrange(k)` and `while True` whose body holds exactly one `yield`, not nested
@@ -30,18 +35,21 @@ PARAMS = {
     "fadeout": [("dur", "num")],
     "attack": [("a", "num"), ("d", "num"), ("s", "arg")],
     "adsr": [("dur", "num"), ("a", "num"), ("d", "num"), ("s", "num"), ("r", "num")],
+    "ones": [("dur", "optnum")],
+    "zeros": [("dur", "optnum")],
+    "impulse": [("dur", "optnum"), ("one", "item"), ("zero", "item")],
 }
-ORDER = ["modulo_counter", "line", "fadein", "fadeout", "attack", "adsr"]
+ORDER = ["modulo_counter", "line", "fadein", "fadeout", "attack", "adsr", "ones", "zeros", "impulse"]
+# functions whose items are of any type (the yielded values are parameters): `Run β`
+ITEM_FUNCS = {"impulse"}
 SHORT = {"modulo_counter": "mc", "attack": "attack", "line": "line", "adsr": "adsr"}
 TAG = {"start": "P", "modulo": "M", "step": "S", "s": "S"}
-LEAN_TY = {"num": "α", "int": "Int", "bool": "Bool", "arg": "Arg α", "list": "List α", "optlist": "Option (List α)"}
+LEAN_TY = {"num": "α", "int": "Int", "bool": "Bool", "arg": "Arg α", "list": "List α", "optlist": "Option (List α)",
+           "optnum": "Option α", "item": "β"}
 RESERVED = {"end", "begin", "from", "fun", "at", "do", "then", "else", "if", "let", "in", "open", "show", "have", "o",
             "nreads", "match", "with", "def", "where", "by", "Type", "instance", "structure", "import", "namespace"}
 FUEL = "nreads"
 NOT_TRANSLATED = {
-    "ones / zeros / zeroes": "`dur is None or (isinf(dur) and dur > 0)` on an optional argument followed by a fall-through "
-                             "`while True` without `else`: outside the subset (hand model `constG`)",
-    "impulse": "same optional-duration shape, items of any type (hand model `impulseG`)",
     "white_noise / gauss_noise": "random values: only the duration is modelled (`noiseLen`)",
     "TableLookup.__call__ / __getitem__ / operators / harmonize / normalize": "methods on an object with attributes and "
         "list indexing with negative indices: outside the subset (hand models `tableCallG`, `lookupAtG`, `tableGetItem`, "
@@ -164,6 +172,14 @@ class Fn:
             return [(v, "if %s then %s else %s" % (c, arm(ba, ta, tya), arm(bb, tb, tyb)))], v, tya
         bad(node, "expression outside the subset")
 
+    def yv(self, t, ty, node):
+        """the term of a yielded value: a number, or (functions of ITEM_FUNCS) an item"""
+        if self.name in ITEM_FUNCS:
+            if ty != "item":
+                bad(node, "an item is needed, found %s" % ty)
+            return t
+        return self.num(t, ty, node)
+
     def pure(self, node, env):
         b, t, ty = self.expr(node, env)
         if b:
@@ -174,6 +190,17 @@ class Fn:
         """a condition -> Lean Bool / Prop text"""
         if isinstance(node, ast.Name) and env.get(node.id) == "bool":
             return lname(node.id)
+        if isinstance(node, ast.BoolOp) and isinstance(node.op, ast.And) and len(node.values) == 2:
+            a, b = (self.cond(v, env) for v in node.values)
+            if not all(c.startswith(("o.isInf ", "o.lt ", "o.le ", "o.isZero ", "!(o.isZero ")) for c in (a, b)):
+                bad(node, "`and` of conditions that are not Bool valued operations of the number type")
+            return "(%s && %s)" % (a, b)
+        if isinstance(node, ast.Call) and isinstance(node.func, ast.Name) and node.func.id == "isinf" \
+                and len(node.args) == 1 and not node.keywords:
+            t, ty = self.pure(node.args[0], env)
+            if ty != "num":
+                bad(node, "isinf() of a non-number")
+            return "o.isInf %s" % t
         if isinstance(node, ast.Compare) and len(node.ops) == 1:
             l, r, op = node.left, node.comparators[0], node.ops[0]
             # abs(E) < float("inf")
@@ -190,6 +217,15 @@ class Fn:
             if tyl == "num" and isinstance(r, ast.Constant) and r.value == 0 and not isinstance(r.value, bool) \
                     and isinstance(op, (ast.Eq, ast.NotEq)):
                 return ("o.isZero %s" if isinstance(op, ast.Eq) else "!(o.isZero %s)") % tl
+            if tyl == "num" and isinstance(op, (ast.Lt, ast.LtE, ast.Gt, ast.GtE)):
+                # an order comparison of numbers; the int literal 0 is read as the number zero
+                if isinstance(r, ast.Constant) and r.value == 0 and not isinstance(r.value, bool):
+                    tr, tyr = "o.zero", "num"
+                if tyr != "num":
+                    bad(node, "comparison of a number with %s" % tyr)
+                f, x, y = {ast.Lt: ("o.lt", tl, tr), ast.LtE: ("o.le", tl, tr), ast.Gt: ("o.lt", tr, tl),
+                           ast.GtE: ("o.le", tr, tl)}[type(op)]
+                return "%s %s %s" % (f, x, y)
             if tyl == "int" and tyr == "int":
                 sym = {ast.Eq: "=", ast.NotEq: "≠", ast.Lt: "<", ast.LtE: "≤", ast.Gt: ">", ast.GtE: "≥"}.get(type(op))
                 if sym:
@@ -287,6 +323,18 @@ class Fn:
                     + self.block(st.body + rest, dict(env, **{x: "list"}), path + tag.upper(), ind + "  ")
                     + ["%s| .num %s =>" % (ind, lname(x))]
                     + self.block(st.orelse + rest, dict(env, **{x: "num"}), path + tag.lower(), ind + "  "))
+        if isinstance(st, ast.If) and isinstance(st.test, ast.BoolOp) and isinstance(st.test.op, ast.Or) \
+                and len(st.test.values) == 2 and self.is_none_test(st.test.values[0]) \
+                and env.get(st.test.values[0].left.id) == "optnum":
+            # `if x is None or C: A else: B` on an optional number (C is evaluated only when x is a number)
+            x = st.test.values[0].left.id
+            envs = dict(env, **{x: "num"})
+            c = self.cond(st.test.values[1], envs)
+            return (["%smatch %s with" % (ind, lname(x)), "%s| none =>" % ind]
+                    + self.block(st.body + rest, dict(env, **{x: "nothing"}), path + "N", ind + "  ")
+                    + ["%s| some %s =>" % (ind, lname(x)), "%s  if %s then" % (ind, c)]
+                    + self.block(st.body + rest, envs, path + "T", ind + "    ")
+                    + ["%s  else" % ind] + self.block(st.orelse + rest, envs, path + "E", ind + "    "))
         if isinstance(st, ast.If) and self.is_none_test(st.test):
             x = st.test.left.id
             if env.get(x) != "optlist":
@@ -350,6 +398,10 @@ class Fn:
 
     def is_segment(self, st, env):
         """a loop whose body is one `yield` of an expression that raises nothing and assigns nothing"""
+        if isinstance(st, ast.Expr) and isinstance(st.value, ast.Yield) and st.value.value is not None:
+            y = st.value.value        # a `yield E` at function level: a segment of one sample
+            return not any(isinstance(n, ast.BinOp) and isinstance(n.op, ast.Mod) or isinstance(n, ast.Call)
+                           for n in ast.walk(y))
         if not isinstance(st, (ast.For, ast.While)) or st.orelse or not self.single_yield(st):
             return False
         y = st.body[0].value.value
@@ -380,8 +432,8 @@ class Fn:
                 bad(st, "a loop bound that can raise, after samples were already yielded")
             pre += ["%srunPre (%s) fun %s =>" % (ind, term, v) for v, term in b]
             segs.append(t)
-            if isinstance(st, ast.If):
-                break
+            if isinstance(st, ast.If) or (isinstance(st, ast.While) and stmts[k + 1:]):
+                break                 # `while True: yield E` never ends: what follows it is never run
         return pre + ["%stakeRun %s (%s)" % (ind, FUEL, ("\n%s  ++ " % ind).join(segs))]
 
     def segment(self, st, env, rest):
@@ -394,10 +446,13 @@ class Fn:
             b = [self.segment(s, envb, [])[1] for s in st.orelse + rest]
             return [], "(match %s with | none => %s | some %s => %s)" % (
                 lname(x), " ++ ".join(a) or "[]", lname(x), " ++ ".join(b) or "[]")
+        if isinstance(st, ast.Expr):
+            t, ty = self.pure(st.value.value, env)
+            return [], "[%s]" % self.yv(t, ty, st)
         y = st.body[0].value.value
         if isinstance(st, ast.While):
             t, ty = self.pure(y, env)
-            return [], "List.replicate %s %s" % (FUEL, self.num(t, ty, y))
+            return [], "List.replicate %s %s" % (FUEL, self.yv(t, ty, y))
         v = st.target.id
         if isinstance(st.iter, ast.Name):
             t, ty = self.pure(y, dict(env, **{v: "num"}))
@@ -406,7 +461,7 @@ class Fn:
         if kty != "int":
             bad(st, "xrange() of a non-int")
         t, ty = self.pure(y, dict(env, **{v: "int"}))
-        return b, "rangeG %s %s (fun (%s : Nat) => %s)" % (k, FUEL, lname(v), self.num(t, ty, y))
+        return b, "rangeG %s %s (fun (%s : Nat) => %s)" % (k, FUEL, lname(v), self.yv(t, ty, y))
 
     # ---- stateful loops -----------------------------------------------------------------------------------
     def assigned(self, stmts, acc):
@@ -544,7 +599,9 @@ def signature(fn):
     for i, (p, kind) in enumerate(want):
         k = i - (len(a.args) - nd)
         d = a.defaults[k] if k >= 0 else None
-        if d is not None and not (isinstance(d, ast.Constant) and isinstance(d.value, (int, float, bool))):
+        if d is not None and kind == "optnum" and isinstance(d, ast.Constant) and d.value is None:
+            pass
+        elif d is not None and not (isinstance(d, ast.Constant) and isinstance(d.value, (int, float, bool))):
             bad(fn, "default of %r is not a number / bool constant" % p)
         out.append((p, kind, d))
     return out
@@ -590,7 +647,10 @@ def translate(text):
         for b in tr.bodies:
             out += [b, ""]
         params = " ".join("(%s : %s)" % (lname(p), LEAN_TY[kind]) for p, kind, _ in sigs[f])
-        out += ["def %s (o : NumOps α) %s (%s : Nat) : Run α :=" % (f, params, FUEL)] + lines + [""]
+        if f in ITEM_FUNCS:
+            out += ["def %s {β : Type} (o : NumOps α) %s (%s : Nat) : Run β :=" % (f, params, FUEL)] + lines + [""]
+        else:
+            out += ["def %s (o : NumOps α) %s (%s : Nat) : Run α :=" % (f, params, FUEL)] + lines + [""]
     out += ["end ALV.Gen.C19", ""]
     return "\n".join(out)
 
@@ -645,6 +705,15 @@ EDITS = [
     ("drop the slope guard (adsr m_r)", "m_r = - s * 1. / r if r != 0 else 0.", "m_r = - s * 1. / r"),
     ("fadeout arguments swapped", "return line(dur, 1., 0.)", "return line(dur, 0., 1.)"),
     ("attack: sustain stream restarted (iter dropped)", "      s = next(it_s)", "      s = next(iter(s))"),
+    ("ones: rounding of the duration int(.5 + dur) -> int(dur)", "  for x in xrange(int(.5 + dur)):\n    yield 1.0",
+     "  for x in xrange(int(dur)):\n    yield 1.0"),
+    ("zeros yields 1.0 in the endless branch", "    while True:\n      yield 0.0", "    while True:\n      yield 1.0"),
+    ("impulse: endless for negative infinity too (dur > 0 dropped)",
+     "  if dur is None or (isinf(dur) and dur > 0):\n    yield one", "  if dur is None or isinf(dur):\n    yield one"),
+    ("impulse: swap-comparison dur >= .5 -> dur > .5", "  elif dur >= .5:", "  elif dur > .5:"),
+    ("impulse: constant int(dur - .5) -> int(dur + .5)", "num_samples = int(dur - .5)", "num_samples = int(dur + .5)"),
+    ("impulse: the one is yielded after the zeros (reorder)", "    yield one\n    for x in xrange(num_samples):\n      yield zero",
+     "    for x in xrange(num_samples):\n      yield zero\n    yield one"),
 ]
 
 
